@@ -97,6 +97,9 @@ func (w *World) extraChecks(prop string) []extraCheck {
 	if prop == "C05" {
 		return leanLemma()
 	}
+	if prop == "C15" {
+		return w.writerScan()
+	}
 	if prop != "C16" && prop != "C17" {
 		return nil
 	}
@@ -256,4 +259,100 @@ func readOnlyUse(in ssa.Instruction, v ssa.Value) bool {
 		return true
 	}
 	return false
+}
+
+// writerScan (C15): the ghost-writer model keeps ONE log for "the destination writer". That is only the real
+// writer's history if every io.Writer handed to a write call is the destination the function received (a
+// parameter, or a parameter captured by a closure), or the function's own bytes.Buffer (the Render helpers).
+// A writer built by the repository itself (a retrying, buffering or filtering wrapper) sits between the
+// renderer and the destination and is not covered by the trusted io.Writer contract; such a call site is
+// reported (ground obligation on the SSA form, no solver needed):
+//   writer-is-the-destination:<fn>:<callee>#k
+func (w *World) writerScan() []extraCheck {
+	var out []extraCheck
+	ioWriter := func(t types.Type) bool {
+		n, ok := t.(*types.Named)
+		return ok && n.Obj().Pkg() != nil && n.Obj().Pkg().Path() == "io" && n.Obj().Name() == "Writer"
+	}
+	var origin func(v ssa.Value, depth int) (bool, string)
+	origin = func(v ssa.Value, depth int) (bool, string) {
+		if depth > 8 {
+			return false, "value too deeply nested"
+		}
+		switch y := v.(type) {
+		case *ssa.Parameter:
+			return true, ""
+		case *ssa.FreeVar:
+			return true, ""
+		case *ssa.ChangeInterface:
+			return origin(y.X, depth+1)
+		case *ssa.MakeInterface:
+			if strings.HasSuffix(y.X.Type().String(), "bytes.Buffer") {
+				return true, ""
+			}
+			return false, "a " + y.X.Type().String() + " made into an io.Writer by this function"
+		case *ssa.Phi:
+			for _, e := range y.Edges {
+				if ok, why := origin(e, depth+1); !ok {
+					return false, why
+				}
+			}
+			return true, ""
+		case *ssa.UnOp: // load of a captured/boxed parameter: *freevar or *alloc holding the parameter
+			if fv, ok := y.X.(*ssa.FreeVar); ok {
+				_ = fv
+				return true, ""
+			}
+			return false, "a writer loaded from memory (" + y.X.String() + ")"
+		}
+		return false, fmt.Sprintf("%T %s", v, v.String())
+	}
+	for _, fn := range w.allRepoFuncsWithClosures() {
+		if fn.Synthetic != "" {
+			continue
+		}
+		ord := map[string]int{}
+		for _, b := range fn.Blocks {
+			for _, in := range b.Instrs {
+				ci, ok := in.(ssa.CallInstruction)
+				if !ok {
+					continue
+				}
+				c := ci.Common()
+				name := ""
+				var args []ssa.Value
+				if c.IsInvoke() {
+					if !ioWriter(c.Value.Type()) {
+						continue
+					}
+					name = "io.Writer." + c.Method.Name()
+					args = []ssa.Value{c.Value}
+				} else {
+					if sc := c.StaticCallee(); sc != nil {
+						name = sc.String()
+					} else {
+						name = "dynamic call"
+					}
+					for _, a := range c.Args {
+						if ioWriter(a.Type()) {
+							args = append(args, a)
+						}
+					}
+				}
+				if len(args) == 0 {
+					continue
+				}
+				ord[name]++
+				for _, a := range args {
+					ok, why := origin(a, 0)
+					what := fmt.Sprintf("the io.Writer handed to %s in %s is the destination this function received (or its own bytes.Buffer)", name, fn.String())
+					if !ok {
+						what += " — it is " + why + " at " + w.prog.Fset.Position(in.Pos()).String()
+					}
+					out = append(out, extraCheck{Name: fmt.Sprintf("writer-is-the-destination:%s:%s#%d", fn.String(), name, ord[name]), OK: ok, What: what})
+				}
+			}
+		}
+	}
+	return out
 }
